@@ -410,6 +410,9 @@ func resolveIncludePaths(basePath string, includes []ast.Include) []string {
 	var resolved []string
 	for _, inc := range includes {
 		if include.IsGlobPattern(inc.Path) {
+			if include.CheckGlobComplexity(inc.Path) != nil {
+				continue
+			}
 			pattern := include.ConvertHledgerGlob(inc.Path)
 			if !filepath.IsAbs(pattern) {
 				pattern = filepath.Join(dir, pattern)
